@@ -20,5 +20,38 @@ pub fn run(o: &Opts) -> Report {
             if case.cmd.settings.ignore_errors && e.use_stderr() { rep.oracle_fail("ignore_errors-returned-an-error", case.req, case.canon); }
         }
     });
+    {
+        use crate::pcorr::*;
+        // requires-cycles are valid definitions ("both or neither"); the transitive walk must terminate from everywhere
+        let mk = |outside: bool| { let mut c = CmdS { name: "prog".into(), ..Default::default() };
+            let flag = |id: &str, req: &[&str]| ArgS { id: id.into(), long: Some(id.into()), action: Some("setTrue"), requires: req.iter().map(|r| (PredS::Present, r.to_string())).collect(), ..Default::default() };
+            if outside { c.args.push(flag("xx", &["aa"])); }
+            c.args.push(flag("aa", &["bb"])); c.args.push(flag("bb", &["cc"])); c.args.push(flag("cc", &["aa"])); c };
+        let cases: Vec<(CmdS, Vec<Vec<u8>>, Expect)> = vec![
+            (mk(true), bv(&["prog", "--xx", "--aa", "--bb", "--cc"]), Box::new(|_| Ok(()))),
+            (mk(false), bv(&["prog", "--aa", "--bb", "--cc"]), Box::new(|_| Ok(()))),
+            (mk(true), bv(&["prog", "--bb", "--cc", "--aa"]), Box::new(|_| Ok(()))),
+        ];
+        run_expect(&mut rep, o, "requires-cycle", cases);
+        // whatever the configuration checks accept must parse to a result: groups nested in themselves are rejected by
+        // the unchanged checks (then these shapes are skipped); if they are ever accepted, parsing still has to return
+        for k in 0..3 {
+            let mut c = CmdS { name: "prog".into(), ..Default::default() };
+            let flag = |id: &str| ArgS { id: id.into(), long: Some(id.into()), action: Some("setTrue"), ..Default::default() };
+            c.args.push(flag("aa")); c.args.push(flag("bb"));
+            let mut x = flag("xx"); x.blacklist = vec!["g1".into()]; c.args.push(x);
+            match k {
+                0 => c.groups.push(GroupS { id: "g1".into(), args: vec!["aa".into(), "g1".into()], ..Default::default() }),
+                1 => { c.groups.push(GroupS { id: "g1".into(), args: vec!["aa".into(), "g2".into()], ..Default::default() }); c.groups.push(GroupS { id: "g2".into(), args: vec!["bb".into(), "g1".into()], ..Default::default() }); }
+                _ => c.groups.push(GroupS { id: "g1".into(), args: vec!["aa".into(), "g1".into()], required: true, ..Default::default() }),
+            }
+            if !real_valid(&c) { rep.count("self-nested-group-rejected-by-the-configuration-checks"); continue; }
+            for argv in [bv(&["prog", "--xx", "--aa"]), bv(&["prog", "--bb"]), bv(&["prog"])] {
+                let (canon, _, _) = real_parse(&c, &argv);
+                if canon.starts_with("PANIC") { rep.oracle_fail("panic:accepted-self-nested-group", &parse_request(&c, &argv), &canon); }
+                rep.count("self-nested-group-accepted-and-parsed");
+            }
+        }
+    }
     rep
 }
